@@ -15,9 +15,49 @@ import (
 
 type (
 	Map    = sync.Map
-	Cond   = sync.Cond
 	Locker = sync.Locker
 )
+
+// Cond: waiters take a ticket and poll (handing the processor over) until a
+// Signal or Broadcast has served it. Atomics carry the happens-before edges.
+type Cond struct {
+	L      Locker
+	next   atomic.Uint64 // tickets handed out
+	served atomic.Uint64 // tickets served
+}
+
+func (c *Cond) Wait() {
+	t := c.next.Add(1) // my ticket: served when c.served >= t
+	c.L.Unlock()
+	simrt.Yield(0)
+	for c.served.Load() < t {
+		simrt.Block()
+	}
+	c.L.Lock()
+}
+
+func (c *Cond) Signal() {
+	for {
+		s := c.served.Load()
+		if s >= c.next.Load() {
+			break // nobody is waiting: the signal is lost, as with the real Cond
+		}
+		if c.served.CompareAndSwap(s, s+1) {
+			break
+		}
+	}
+	simrt.Yield(0)
+}
+
+func (c *Cond) Broadcast() {
+	for {
+		s, n := c.served.Load(), c.next.Load()
+		if s >= n || c.served.CompareAndSwap(s, n) {
+			break
+		}
+	}
+	simrt.Yield(0)
+}
 
 // WaitGroup: Wait polls (handing the processor to other simulated tasks)
 // instead of blocking the only running goroutine; the real WaitGroup
@@ -54,7 +94,7 @@ func (w *WaitGroup) Go(f func()) {
 	})
 }
 
-func NewCond(l Locker) *Cond { return sync.NewCond(l) }
+func NewCond(l Locker) *Cond { return &Cond{L: l} }
 
 type Mutex struct{ mu sync.Mutex }
 
